@@ -350,7 +350,7 @@ func checkPowerRankKey(r *Run) {
 	if g := r.fn(vT + "ABCIValidatorUpdateZero"); g != nil {
 		for _, ret := range Returns(g) {
 			t := P.TermAt(ret.Results[0], ret).String()
-			r.Check(strings.Contains(t, "Power=0") && strings.Contains(t, "param:v.PublicKey"), "C05-R3", "ABCIValidatorUpdateZero", P.InstrPos(ret), t, "ABCIValidatorUpdateZero is "+t)
+			r.Check(!strings.Contains(t, "Power=") && strings.HasPrefix(t, "complit:") && strings.Contains(t, "param:v.PublicKey"), "C05-R3", "ABCIValidatorUpdateZero", P.InstrPos(ret), t, "ABCIValidatorUpdateZero is "+t)
 		}
 	}
 }
@@ -359,15 +359,16 @@ func checkPowerRankKey(r *Run) {
 func consensusPowerShape(r *Run, rule string) {
 	P := r.P
 	if g := r.fn(vT + "ConsensusPower"); g != nil {
-		for _, ret := range Returns(g) {
-			t := P.TermAt(ret.Results[0], ret).String()
-			gs := P.Guards(ret, 0)
+		// early returns or one result variable: judged per alternative
+		for _, a := range P.RetAlternatives(g, 0) {
+			t := a.T.String()
+			gs := a.G
 			if t == "0" {
 				ok, _ := HasAtom(gs, `^!\(x/pos/types\.Validator\)\.IsStaked\(param:v\)$`)
-				r.Check(ok, rule, "ConsensusPower/zero-iff-not-staked", P.InstrPos(ret), "0 only when not staked", "returns 0 under "+strings.Join(atomStrings(gs), ";"))
+				r.Check(ok, rule, "ConsensusPower/zero-iff-not-staked", P.InstrPos(a.Ret), "0 only when not staked", "returns 0 under "+strings.Join(atomStrings(gs), ";"))
 			} else {
 				ok, _ := HasAtom(gs, `^\(x/pos/types\.Validator\)\.IsStaked\(param:v\)$`)
-				r.Check(ok && t == vT+"PotentialConsensusPower(param:v)", rule, "ConsensusPower/staked-power", P.InstrPos(ret), t, "returns "+t+" under "+strings.Join(atomStrings(gs), ";"))
+				r.Check(ok && t == vT+"PotentialConsensusPower(param:v)", rule, "ConsensusPower/staked-power", P.InstrPos(a.Ret), t, "returns "+t+" under "+strings.Join(atomStrings(gs), ";"))
 			}
 		}
 	}
